@@ -27,6 +27,11 @@ def main():
     prop = a.prop.upper()
     res = report.Result(prop, tier)
     try:
+        if not os.path.exists(os.path.join(os.path.dirname(os.path.dirname(os.path.dirname(os.path.abspath(__file__)))),
+                                           "rules", "check_%s.py" % prop.lower())):
+            # a property that is not claimed (MANIFEST.not_applicable) has no check and gets no evidence file
+            print("no check is registered for %s (see MANIFEST.json: not_applicable)" % prop)
+            sys.exit(2)
         mod = importlib.import_module("rules.check_" + prop.lower())
         mod.run(res, tier, replay=a.replay)
         res.units = extract.stats["units"]
